@@ -47,6 +47,8 @@ type Program struct {
 	Rounds int `json:"rounds,omitempty"`
 	// Recovery: the router has a recovery function and the never-touched route /boom/{id} panics
 	Recovery bool `json:"recovery,omitempty"`
+	// ViaGroup: the router is made by Group.New (matcher nil) and every request enters through Group.ServeHTTP
+	ViaGroup bool `json:"via_group,omitempty"`
 }
 
 type upat struct {
@@ -95,6 +97,7 @@ func gen(t *rapid.T) Program {
 	p.Procs = rapid.SampledFrom([]int{2, 4, 16}).Draw(t, "procs")
 	p.Trace = rapid.Bool().Draw(t, "trace")
 	p.Recovery = rapid.IntRange(0, 2).Draw(t, "recovery") == 0
+	p.ViaGroup = rapid.IntRange(0, 3).Draw(t, "viaGroup") == 0
 	p.Pre = rapid.SliceOfNDistinct(rapid.IntRange(0, len(toggled)-1), 0, 10, rapid.ID[int]).Draw(t, "pre")
 	nw := rapid.IntRange(1, 4).Draw(t, "nwriters")
 	nr := rapid.IntRange(1, 6).Draw(t, "nreaders")
@@ -182,6 +185,7 @@ func gen(t *rapid.T) Program {
 				op.Kind = "routes"
 				if p.Recovery && rapid.Bool().Draw(t, "rpanic") {
 					op.Kind = "panic"
+					op.P = rapid.IntRange(0, 1).Draw(t, "rpanicWhere") // 0: the handler panics, 1: the route's interceptor function does
 				}
 			default:
 				op.Kind = "url"
@@ -218,11 +222,26 @@ func runProgram(p Program) (map[string]float64, *rig.Violation) {
 			recovered.Add(1)
 			w.WriteHeader(http.StatusInternalServerError)
 		}))
+		// user code that runs while the tree is being searched: an interceptor that panics on one value
+		opts = append(opts, mux.WithInterceptor(func(v string) bool {
+			if v == "boom" {
+				panic("interceptor boom")
+			}
+			return v != ""
+		}, "pid"))
 	}
-	r := mux.NewRouter[*rig.H]("r", rig.Call, &rig.H{ID: "404", Kind: "404"},
-		func(n types.Node) *rig.H { return &rig.H{ID: "405", Kind: "405", Node: n} },
-		func(n types.Node) *rig.H { return &rig.H{ID: "options", Kind: "options", Node: n} },
-		opts...)
+	b405 := func(n types.Node) *rig.H { return &rig.H{ID: "405", Kind: "405", Node: n} }
+	bopt := func(n types.Node) *rig.H { return &rig.H{ID: "options", Kind: "options", Node: n} }
+	var r *mux.Router[*rig.H]
+	var front http.Handler
+	if p.ViaGroup {
+		g := mux.NewGroup[*rig.H](rig.Call, &rig.H{ID: "404", Kind: "404"}, b405, bopt)
+		r = g.New("r", nil, opts...)
+		front = g
+	} else {
+		r = mux.NewRouter[*rig.H]("r", rig.Call, &rig.H{ID: "404", Kind: "404"}, b405, bopt, opts...)
+		front = r
+	}
 	uid := map[string]string{}
 	for _, u := range untouched {
 		h := newH(u.pattern)
@@ -231,6 +250,7 @@ func runProgram(p Program) (map[string]float64, *rig.Violation) {
 	}
 	if p.Recovery {
 		r.Handle(boom.pattern, &rig.H{ID: tag(boom.pattern, hid.Add(1)), Kind: "route", Script: []rig.Action{{Op: "panic", V: "boom"}}}, nil, boom.methods...)
+		r.Handle("/pi/{id:pid}", newH("/pi/{id:pid}"), nil, "GET")
 	}
 	for _, i := range p.Pre {
 		rig.Try(func() { r.Handle(toggled[i].pattern, newH(toggled[i].pattern), nil, "GET") })
@@ -258,6 +278,7 @@ func runProgram(p Program) (map[string]float64, *rig.Violation) {
 	if p.Recovery {
 		parsed[boom.pattern] = pat.MustParse(boom.pattern, nil)
 		all[boom.pattern] = true
+		all["/pi/{id:pid}"] = true
 	}
 	allow := func(ms []string) []string {
 		set := map[string]bool{"OPTIONS": true}
@@ -337,7 +358,7 @@ func runProgram(p Program) (map[string]float64, *rig.Violation) {
 				case "untouched":
 					u := untouched[op.P]
 					path, params := u.path(fmt.Sprint(ri*1000 + i))
-					o := rig.Serve(r, rig.Req{Method: op.M, Path: path})
+					o := rig.Serve(front, rig.Req{Method: op.M, Path: path})
 					served := false
 					for _, m := range u.methods {
 						if m == op.M || (m == "GET" && op.M == "HEAD") {
@@ -362,7 +383,7 @@ func runProgram(p Program) (map[string]float64, *rig.Violation) {
 					}
 				case "toggled":
 					tg := toggled[op.P]
-					o := rig.Serve(r, rig.Req{Method: op.M, Path: tg.path})
+					o := rig.Serve(front, rig.Req{Method: op.M, Path: tg.path})
 					switch {
 					case o.Panicked:
 						fail(rig.Violf("reader-fault", "%s: %s %s panicked: %v", where, op.M, tg.path, o.PanicVal))
@@ -383,8 +404,16 @@ func runProgram(p Program) (map[string]float64, *rig.Violation) {
 						}
 					}
 				case "panic":
+					if op.P == 1 {
+						// the panic happens inside the interceptor, i.e. while the router searches its tree
+						o := rig.Serve(front, rig.Req{Method: "GET", Path: "/pi/boom"})
+						if o.Panicked || o.EffStatus() != http.StatusInternalServerError {
+							fail(rig.Violf("recovery-not-run", "%s: GET /pi/boom (the interceptor panics): escaped=%v (%v), status %d; the recovery function writes 500", where, o.Panicked, o.PanicVal, o.EffStatus()))
+						}
+						break
+					}
 					path, params := boom.path(fmt.Sprint(ri*1000 + i))
-					o := rig.Serve(r, rig.Req{Method: "GET", Path: path})
+					o := rig.Serve(front, rig.Req{Method: "GET", Path: path})
 					switch {
 					case o.Panicked:
 						fail(rig.Violf("reader-fault", "%s: GET %s: the handler's panic was not recovered although the router has a recovery function: %v", where, path, o.PanicVal))
@@ -518,7 +547,7 @@ func runProgram(p Program) (map[string]float64, *rig.Violation) {
 		for _, tg := range toggled {
 			listed, live := routes[tg.pattern]
 			for _, m := range []string{"GET", "HEAD", "POST", "PUT", "DELETE", "PATCH", "OPTIONS"} {
-				o := rig.Serve(r, rig.Req{Method: m, Path: tg.path})
+				o := rig.Serve(front, rig.Req{Method: m, Path: tg.path})
 				if o.Panicked || o.HandlerNil {
 					fail(rig.Violf("quiescent-fault", "after all goroutines finished %s %s: panicked=%v (%v) zero handler=%v", m, tg.path, o.Panicked, o.PanicVal, o.HandlerNil))
 					continue
@@ -595,7 +624,7 @@ func TestChild(t *testing.T) {
 // ---- parent -----------------------------------------------------------------
 
 var stats = rig.NewStats("C06",
-	"rapid draws a concurrent program: 1-4 writer scripts (20-200 Handle / Remove / Remove(methods) / Prefix.Clean ops on ten toggled patterns chosen to split and re-merge the nodes of three never-touched routes) and 1-6 reader scripts (20-200 ops: requests to never-touched routes with per-op distinct parameter values, requests to toggled routes, OPTIONS / 405 probes, Routes(), strict URL), generated Gosched points, GOMAXPROCS in {2,4,16}; the program runs in a child process built with -race (halt_on_error) on a WithLock(true) router. Half of the programs run on a router that also has a TRACE handler. Oracle: no race report, no fatal runtime error, no deadlock (after 40 s every remaining program goroutine blocked on the router's lock), child exits 0; never-touched routes are always answered by their own handler with their own parameters and exact Allow sets; toggled requests get 404, or a handler / 405 / OPTIONS belonging to the very route they report with conforming parameters - never a zero or foreign handler; Routes() only lists program patterns and always the never-touched ones; strict URL of never-touched routes always succeeds. A third of the programs run with WithRecovery and a never-touched route whose handler panics (readers request it: it must answer 500 on its own route with its own parameters). One program in four is a mini program (2-4 writers x 1-4 operations on a duel pair or on a rival pair - one route under two parameter names - re-run 100-600 times on fresh routers). Once all goroutines have finished the state must be one a sequential router can be in: never both routes of a rival pair listed, every route that was registered and that nothing removes listed, and for every toggled route and seven methods Routes(), the node's method list and dispatch agree. Non-trivial: a program in which reader operations overlapped a writer operation (sampled with an atomic in-flight counter; the overlapping count is reported); distinct by hash of the program",
+	"rapid draws a concurrent program: 1-4 writer scripts (20-200 Handle / Remove / Remove(methods) / Prefix.Clean ops on ten toggled patterns chosen to split and re-merge the nodes of three never-touched routes) and 1-6 reader scripts (20-200 ops: requests to never-touched routes with per-op distinct parameter values, requests to toggled routes, OPTIONS / 405 probes, Routes(), strict URL), generated Gosched points, GOMAXPROCS in {2,4,16}; the program runs in a child process built with -race (halt_on_error) on a WithLock(true) router. Half of the programs run on a router that also has a TRACE handler. Oracle: no race report, no fatal runtime error, no deadlock (after 40 s every remaining program goroutine blocked on the router's lock), child exits 0; never-touched routes are always answered by their own handler with their own parameters and exact Allow sets; toggled requests get 404, or a handler / 405 / OPTIONS belonging to the very route they report with conforming parameters - never a zero or foreign handler; Routes() only lists program patterns and always the never-touched ones; strict URL of never-touched routes always succeeds. A third of the programs run with WithRecovery, a never-touched route whose handler panics and one whose interceptor function panics on one value, i.e. while the tree is searched under the read lock (readers request both: 500, own route, own parameters - and the router must go on working). A quarter of the programs reach the router through Group.ServeHTTP (router made by Group.New, matcher nil). One program in four is a mini program (2-4 writers x 1-4 operations on a duel pair or on a rival pair - one route under two parameter names - re-run 100-600 times on fresh routers). Once all goroutines have finished the state must be one a sequential router can be in: never both routes of a rival pair listed, every route that was registered and that nothing removes listed, and for every toggled route and seven methods Routes(), the node's method list and dispatch agree. Non-trivial: a program in which reader operations overlapped a writer operation (sampled with an atomic in-flight counter; the overlapping count is reported); distinct by hash of the program",
 	"interleavings are sampled by the Go scheduler, not enumerated; the race detector's happens-before analysis flags unsynchronised access pairs once both accesses execute",
 	"Router.Use is not part of the program (the property does not list it)")
 
